@@ -298,6 +298,22 @@ def ee_body(ctx, case):
             ctx.classes["diameter_oracle_applied" + ("_beyond_half_frame" if d_true > n / 2.0 else "")] += 1
             ctx.residual("reported EE diameter vs smallest disc holding the fraction [px]", abs(d - d_true), 1.5 + 0.02 * n)
             ctx.require(abs(d - d_true) <= 1.5 + 0.02 * n, "encircled_energy(fraction=%.3f) reports diameter %.2f px; the smallest centred disc holding that fraction of the energy has (area-equivalent) diameter %.2f px, inside the %d px frame" % (f, d, d_true, n))
+    # the same image in the narrower float types detectors and FITS files deliver, judged at the precision of that type
+    # (every pixel is a finite number of the type; that their SUM is not representable in it is the function's business)
+    for dt, amp, tol in (("float32", 1.0, 1e-6), ("float16", 3000.0 / float(data.max()), 4e-3)):
+        narrow = (data * amp).astype(dt)
+        if not narrow.sum(dtype=np.float64) > 0:
+            continue
+        with np.errstate(all="ignore"):
+            xn, yn = P().encircled_energy(narrow, fraction=f, eeDiameter=False)
+            dn = P().encircled_energy(narrow, fraction=f)
+        xw, yw = P().encircled_energy(narrow.astype(np.float64), fraction=f, eeDiameter=False)
+        ctx.require(bool(np.all(yn <= 1 + tol)), "encircled-energy curve of a %s image exceeds 1: max = 1 + %.3g" % (dt, float(np.max(yn)) - 1))
+        ctx.close(yn, yw, tol, "encircled-energy curve of a %s image == curve of the same numbers as float64 (to %s precision)" % (dt, dt), scale=1.0, name="EE storage type " + dt)
+        step = float(xw[1] - xw[0])
+        # (the diameter is one of the curve's abscissae: a difference of the curves at rounding level can move it by one sample)
+        dw = P().encircled_energy(narrow.astype(np.float64), fraction=f)
+        ctx.require(abs(dn - dw) <= step * 1.001 + 1e-12, "encircled-energy diameter of a %s image is %.3f px, of the same numbers as float64 %.3f px" % (dt, dn, dw))
     # normalised curve: invariant under multiplication of the image by a positive constant
     for k in (case.get("scale", 3.0), 1.0 / 1024):
         xs, ys = P().encircled_energy(data * k, fraction=f, eeDiameter=False)
